@@ -61,6 +61,25 @@ type world struct {
 	sk   []bls.Fr
 	salt string
 	msgs map[int]string // overrides: message index -> hex hash (real transaction hashes)
+	// long-lived objects reused across several verifications of one history (nil = fresh per call)
+	schemes map[string]*encryption.BLS0ChainScheme
+}
+
+// verifierShared returns the one long-lived scheme object of a key (as node.Node / the client cache
+// keep one per signer); falls back to a fresh object when the world keeps none.
+func (w *world) verifierShared(s sscalar) (*encryption.BLS0ChainScheme, error) {
+	if w.schemes == nil {
+		return w.verifier(s)
+	}
+	k := s.coq()
+	if ss, ok := w.schemes[k]; ok {
+		return ss, nil
+	}
+	ss, err := w.verifier(s)
+	if err == nil {
+		w.schemes[k] = ss
+	}
+	return ss, err
 }
 
 func newWorld(r *vh.Rand, nkeys int) *world {
